@@ -81,3 +81,5 @@ Definition agree_C05 (a b : out) : bool :=
 Definition agree_C06 (a b : out) : bool :=
   list_eqb (fun x y => String.eqb (s_name x) (s_name y) && list_eqb field_eqb (s_fields x) (s_fields y))
            (o_structs a) (o_structs b).
+
+Definition on_out (r : result out) (f : out -> bool) : bool := match r with Ok o => f o | _ => false end.
